@@ -318,12 +318,9 @@ Proof.
       assert (Hdd : livep (nth dst (lview st) dflt) = false).
       { rewrite nth_lview by lia. unfold lp.
         destruct Hpend as [Hp0|Hp0]; [rewrite Hp0|]; nat_cases; unfold livep; simpl; exact El. }
-      constructor; auto; try lia.
-      * rewrite Hsrc'. lia.
-      * rewrite Hsrc'. lia.
-      * intros i Hi _. apply Hl1. lia.
-      * rewrite Hsrc'. exact Hl2.
-      * rewrite Hsrc'. unfold do_move.
+      constructor; rewrite ?Hsrc'; auto; try lia.
+      all: try (intros i Hi _; apply Hl1; lia).
+      * unfold do_move.
         destruct ((0 <? d_pl st)%nat && merge_test true st dst s) eqn:Em; simpl.
         -- apply andb_true_iff in Em. destruct Em as [E0 Em]. apply Nat.ltb_lt in E0.
            unfold merge_test in Em. apply andb_true_iff in Em. destruct Em as [E1 E2].
@@ -360,7 +357,7 @@ Theorem defrag_loop_correct : forall cs ps,
   Permutation (live_pairs (d_cells st) (d_phys st)) (live_pairs cs ps) /\
   compact (d_cells st).
 Proof.
-  intros cs ps Hl n st.
+  intros cs ps Hl n st. subst st.
   set (st0 := mkD cs ps (n - 1) 0 0 0).
   assert (J0 : J n (combine cs ps) 0 st0).
   { constructor; simpl; auto; try lia.
@@ -371,7 +368,7 @@ Proof.
   destruct HJ as [Hlc Hlp Hsrc Hdst Hlive Hdead Hpend Hperm].
   destruct (flush_view st1 ltac:(lia)) as [Hv [Hfc [Hfp _]]].
   { destruct Hpend as [Hp|Hp]; [left; exact Hp|right; lia]. }
-  fold st in Hv, Hfc, Hfp.
+  set (st := flush true st1) in *.
   repeat split; try lia.
   - unfold live_pairs. rewrite Hv. exact Hperm.
   - (* compactness: liveness is unchanged by the flush, which permutes a block of live cells *)
